@@ -996,10 +996,14 @@ func ordCarriedRule(c *Ctx) {
 					continue
 				}
 				for _, w := range e.sortedWrites(g) {
-					if w.root != "param" || w.param < 0 || w.param >= len(call.Args) {
-						continue
+					if w.root != "param" || w.param < 0 || w.param >= len(call.Args) || strings.HasPrefix(w.how, "append") {
+						continue // appending to a list handed in is the accumulator idiom (sorted afterwards: ORD-SINK)
 					}
 					ao := core.ObjOf(info, call.Args[w.param])
+					// x = f(x, …): the accumulator is threaded through, its order is ORD-SINK's business
+					if as, isAs := c.parents(fi)[call].(*ast.AssignStmt); isAs && len(as.Lhs) >= 1 && ao != nil && core.ObjOf(info, as.Lhs[0]) == ao {
+						continue
+					}
 					if ao == nil || ao.Pos() >= rs.Pos() && ao.Pos() <= rs.End() {
 						continue // declared inside the loop: not carried over
 					}
